@@ -272,7 +272,7 @@ fn one(idx: u64, c: &Case, floor: usize, lowest: usize, attempts: &mut Vec<u64>,
             // a trampoline that was already placed when a later step (mprotect) failed is not a
             // "placement rejected as out of range": the property does not speak about it, so it is
             // reported as a note only
-            let placement_failure = class == "alloc-failed";
+            let placement_failure = c.faults != Faults::MprotectFails;
             if !kept.is_empty() && !placement_failure {
                 d = d.b("note_trampoline_left_mapped_after_non_placement_failure", true);
                 return (Verdict::Held, String::new(), d);
